@@ -6,8 +6,75 @@ import json, os, re, subprocess, sys, time
 V = '/verif'
 def sh(cmd, **kw):
     return subprocess.run(cmd, shell=True, capture_output=True, text=True, **kw)
+def scratch_one(d):
+    """one seeded change in a scratch worktree of /repo + a private copy of /verif (RS_REPO points at the worktree): /repo,
+    /verif/.cache and /verif/evidence are not touched, so several can run at once and other work can go on"""
+    pid = d.split('-')[0]
+    p = f'{V}/seeded/{d}/patch.diff'
+    W, VH = f'/tmp/mx_wt_{d}', f'/tmp/mx_vh_{d}'
+    sh(f'git -C /repo worktree remove --force {W}; rm -rf {W} {VH}')
+    r = sh(f'git -C /repo worktree add -q --detach {W} HEAD && git -C {W} apply {p}')
+    if r.returncode != 0:
+        sh(f'git -C /repo worktree remove --force {W}')
+        return d, pid, None, 'patch does not apply', 0, ''
+    sh(f'rsync -a --delete --exclude .git --exclude replays {V}/ {VH}/')
+    t0 = time.time()
+    r = sh(f'cd {VH} && RS_REPO={W} python3 checks/run_check.py {pid} --tier quick', timeout=2400)
+    dt = time.time() - t0
+    sh(f'git -C /repo worktree remove --force {W}; rm -rf {VH}')
+    return d, pid, r.returncode, r.stdout + r.stderr, dt, f'scratch worktree of /repo with the patch applied, RS_REPO pointing at it, private copy of /verif'
+
+
+def record(d, pid, rc, out, dt, how):
+    fired = rc == 1 and ('VIOLATION property=' + pid) in out
+    keys = re.findall(r'violations by key: (\{.*\})', out)
+    m = re.search(r'VIOLATION property=\S+ replay=\S+.*\n\s+(.*)', out)
+    first = m.group(1)[:160] if m else ''
+    mp = f'{V}/seeded/{d}/meta.json'
+    try:
+        meta = json.load(open(mp))
+    except Exception:
+        meta = {}
+    meta['verif'] = {'applied_with': how, 'check': f'python3 checks/run_check.py {pid} --tier quick', 'exit': rc,
+                     'detected': bool(fired), 'violations_by_key': keys[0] if keys else None, 'first_report': first, 'wall_s': round(dt, 1)}
+    json.dump(meta, open(mp, 'w'), indent=1)
+    return fired
+
+
+def write_table():
+    with open(f'{V}/seeded/MATRIX.md', 'w') as f:
+        f.write('# Seeded changes vs checks (quick tier, seed 1)\n\nEach row: the change was applied to a checkout of /repo (either `git -C /repo apply` + undo, or a scratch worktree of /repo with '
+                '`RS_REPO` pointing at it - see `verif.applied_with` in each meta.json), the property\'s quick check was run against it, the change was discarded.\n\n'
+                '| change | property | result | what fired | wall s |\n|---|---|---|---|---|\n')
+        for d in sorted(os.listdir(f'{V}/seeded')):
+            mp = f'{V}/seeded/{d}/meta.json'
+            if not os.path.exists(mp):
+                continue
+            v = json.load(open(mp)).get('verif')
+            if not v:
+                continue
+            what = ((v.get('violations_by_key') or '') + ' :: ' + (v.get('first_report') or '')).replace('|', '/')
+            f.write(f"| {d} | {d.split('-')[0]} | {'DETECTED' if v.get('detected') else 'missed'} | {what} | {v.get('wall_s', 0):.0f} |\n")
+
+
 def main():
     only = [a for a in sys.argv[1:] if not a.startswith('-')]
+    par = [int(a.split('=')[1]) for a in sys.argv[1:] if a.startswith('--scratch=')]
+    if par:
+        from concurrent.futures import ThreadPoolExecutor
+        ds = [d for d in sorted(os.listdir(f'{V}/seeded')) if os.path.exists(f'{V}/seeded/{d}/patch.diff') and (not only or d in only or d.split('-')[0] in only)]
+        missed = []
+        with ThreadPoolExecutor(par[0]) as ex:
+            for (d, pid, rc, out, dt, how) in ex.map(scratch_one, ds):
+                if rc is None:
+                    print((d, pid, out), flush=True); missed.append(d); continue
+                ok = record(d, pid, rc, out, dt, how)
+                print((d, pid, 'DETECTED' if ok else 'missed', round(dt)), flush=True)
+                if not ok:
+                    missed.append(d)
+        write_table()
+        print('missed:', missed)
+        return
     st = sh('git -C /repo status --porcelain --untracked-files=no').stdout.strip()
     if st:
         print('repo not clean:', st); sys.exit(2)
